@@ -113,6 +113,8 @@ class Harness(cm.BaseA):
         return make_world(config)
 
     def core_events(self, W, config):
+        if config.get("clone") and W.get("n", 0) >= (1 if getattr(self, "tier", "quick") == "quick" else 2):
+            return []  # the cloning configurations are explored less deep (quick: 1 + 1, thorough: 2 + 1 operations)
         return core()
 
     def full_events(self, W, config):
@@ -130,6 +132,7 @@ class Harness(cm.BaseA):
 
     def step(self, W, ev, config):
         op = ev[0]
+        W["n"] = W.get("n", 0) + 1
         lws = W["lw"]
         old = {n: ([l for l, _ in lw.history], [a for _, a in lw.history], [a.copy() for _, a in lw.history]) for n, lw in lws.items()}
         vol_obj = {n: lw.volumes for n, lw in lws.items()}
